@@ -111,8 +111,26 @@ TOK = re.compile(r"\s+|//[^\n]*|(\$|->|=>|\|\||::|[A-Za-z_][A-Za-z0-9_]*|\"(?:[^
 OPEN = {"(": ")", "[": "]", "{": "}"}
 
 
+BENIGN_ATTRS = {"allow", "warn", "deny", "expect", "forbid", "inline", "doc", "must_use", "cold", "rustfmt", "clippy"}
+
+
+def strip_benign_attrs(toks):
+    """drop outer attributes that cannot change what a program computes (`#[allow(..)]`, `#[inline]`, `#[doc = ..]`,
+    `#[must_use]`, `#[rustfmt::skip]` ...).  Anything else (cfg, cfg_attr, macro_export, path, ...) is kept and is
+    either understood by a template or makes the source unclassifiable."""
+    out, i = [], 0
+    while i < len(toks):
+        if toks[i] == "#" and i + 2 < len(toks) and toks[i + 1] == "[" and toks[i + 2] in BENIGN_ATTRS:
+            i = matching(toks, i + 1) + 1
+            continue
+        out.append(toks[i])
+        i += 1
+    return out
+
+
 def tokenize(src):
-    return [m.group(1) for m in TOK.finditer(src) if m.group(1)]
+    src = re.sub(r"/\*.*?\*/", " ", src, flags=re.S)      # block comments (doc blocks included); line comments go in TOK
+    return strip_benign_attrs([m.group(1) for m in TOK.finditer(src) if m.group(1)])
 
 
 def matching(toks, i):
